@@ -32,6 +32,7 @@ fn main() {
             db::run(seed, cases, &mut sink, &focus, nops, big, scale)
         }
         "image" => image::run(seed, cases, &mut sink, &outdir),
+        "image-leak" => image::scenario_leak(&mut sink, &outdir),
         _ => {
             eprintln!("usage: vharness <core-pp> --seed S --cases N --out DIR");
             std::process::exit(2);
